@@ -85,6 +85,31 @@ fn main() {
             }
             writeln!(out, "{}", Value::Array(res)).unwrap();
         }
+        // cursor replay <file> | cursor record <seed> <histories> <ops> | cursor extremes
+        Some("cursor") => {
+            match args[2].as_str() {
+                "replay" => {
+                    let f = std::io::BufReader::new(std::fs::File::open(&args[3]).unwrap());
+                    for line in f.lines() {
+                        let line = line.unwrap();
+                        if line.trim().is_empty() { continue; }
+                        let h: Value = serde_json::from_str(&line).unwrap();
+                        writeln!(out, "{}", engines::cursor::replay(&h)).unwrap();
+                    }
+                }
+                "record" => {
+                    let seed: u64 = args[3].parse().unwrap();
+                    let nh: usize = args[4].parse().unwrap();
+                    let nops: usize = args[5].parse().unwrap();
+                    for i in 0..nh {
+                        let mut ev = vec![];
+                        engines::cursor::record(seed.wrapping_mul(1000).wrapping_add(i as u64), nops, i % 2 == 1, &mut ev);
+                        for e in ev { writeln!(out, "{}", e).unwrap(); }
+                    }
+                }
+                _ => { writeln!(out, "{}", engines::cursor::extremes()).unwrap(); }
+            }
+        }
         Some("keys") => {
             let mut ks: Vec<&str> = table().keys().cloned().collect();
             ks.sort();
